@@ -96,7 +96,7 @@ fn check(case: &SemCase, net: &Net, f: &F) -> Verdict {
 }
 
 impl Property for C13 {
-    type Raw = RawSem;
+    type Raw = crate::scale::WithMid<RawSem>;
     fn id(&self) -> &'static str {
         "C13"
     }
@@ -112,10 +112,19 @@ impl Property for C13 {
     fn cases(&self, tier: Tier) -> u32 {
         tier.pick(30_000, 1_000_000)
     }
-    fn strategy(&self, tier: Tier) -> BoxedStrategy<RawSem> {
-        raw_sem(tier.pick(3, 4), 2..=2, 4, tier.pick(10, 16))
+    fn strategy(&self, tier: Tier) -> BoxedStrategy<crate::scale::WithMid<RawSem>> {
+        crate::scale::with_mid(raw_sem(tier.pick(3, 4), 2..=2, 4, tier.pick(10, 16)), 99, 1, tier.pick(600, 2500))
     }
-    fn check_raw(&self, raw: &RawSem) -> Verdict {
+    fn check_raw(&self, raw: &crate::scale::WithMid<RawSem>) -> Verdict {
+        let raw = match raw {
+            crate::scale::WithMid::Small(r) => r,
+            crate::scale::WithMid::Mid(raw, ms) => {
+                // force a weak-until at the top so that every mid-size case is in the property's domain
+                let mut raw = raw.clone();
+                raw.1 = crate::gen::RawF::Bin(7 + raw.2 % 2, Box::new(raw.1.clone()), Box::new(crate::gen::RawF::Prop(raw.2 as u16 * 257)));
+                return crate::scale::check_mid("C13", &raw, *ms, FCfg::PLAIN_WEAK);
+            }
+        };
         match resolve_sem(raw, FCfg::PLAIN_WEAK) {
             Err(r) => Verdict::Discard(r),
             Ok((mut case, fs, net)) => {
@@ -132,6 +141,17 @@ impl Property for C13 {
         }
     }
     fn replay(&self, case: &Value) -> Verdict {
+        if let Some(v) = crate::scale::replay_scale("C13", case) {
+            return v;
+        }
         replay_with(case, |case, net, fs| check(case, net, &fs[0]))
+    }
+    fn extra_stages(&self, tier: Tier, seed: u64, stats: &mut Stats) -> Option<Failure> {
+        crate::scale::calibrate(seed, tier.pick(1500, 20_000), FCfg::PLAIN_WEAK, stats);
+        let mut models: Vec<&str> = crate::scale::SCALE_MODELS_QUICK.to_vec();
+        if tier == Tier::Thorough {
+            models.extend(crate::scale::SCALE_MODELS_MORE);
+        }
+        crate::scale::bundled_scale_stage_with("C13", &models, tier.pick(8, 50), seed, std::time::Duration::from_secs(tier.pick(5, 30)), FCfg::PLAIN_WEAK, 1, true, stats)
     }
 }
